@@ -108,6 +108,34 @@ fn main() {
                 std::process::exit(2);
             }
         },
+        "gen-stats" => {
+            // diagnostic: acceptance rate of generator-G programs, with the first line of the commonest rejections
+            worker::install_hooks();
+            let mut rng = prng::Rng::new(7);
+            let scratch = worker::Scratch::new();
+            let mut ok = 0;
+            let mut reasons: std::collections::BTreeMap<String, (u32, String)> = Default::default();
+            let n = 3000;
+            for i in 0..n {
+                let mut sub = rng.derive(i);
+                let src = genprog::Gen::new(&mut sub).program();
+                let c = worker::compile_program(&spec::ProgramSpec { source: src.clone(), ..Default::default() }, &scratch);
+                if c.program.is_some() {
+                    ok += 1;
+                } else {
+                    let key = c.outcome.lines().find(|l| l.starts_with("error")).unwrap_or("?").to_string();
+                    let e = reasons.entry(key).or_insert((0, src.clone()));
+                    e.0 += 1;
+                }
+                rng.next_u64();
+            }
+            println!("accepted {ok} of {n}");
+            let mut v: Vec<_> = reasons.into_iter().collect();
+            v.sort_by_key(|(_, (n, _))| std::cmp::Reverse(*n));
+            for (k, (n, src)) in v.iter().take(12) {
+                println!("{n:5}  {k}\n        e.g. {}", src.replace('\n', " ; "));
+            }
+        }
         "corpus" => {
             for (name, cs) in [("A", corpus::corpus_a()), ("B", corpus::corpus_b()), ("C", corpus::corpus_c())] {
                 let comparable = cs.iter().filter(|c| c.comparable()).count();
